@@ -703,6 +703,19 @@ pub fn c16_random(ctx: &Ctx, rng: &mut Rng, seed: u64, perms: Perms, class: usiz
     History { property: "C16".into(), seed, label, steps }
 }
 
+/// C16 on a database opened from one listed prior state of the data directory (the very start that
+/// has to recover it), and again on the following start.
+pub fn c16_state(ctx: &Ctx, tag: &str, st: &StateSpec, perms: Perms, seed: u64) -> History {
+    let again = Some(seed ^ 0x5eed);
+    let own = |slot: usize| Op::OwnWords { slot, perms, only: None, again };
+    let steps = vec![
+        Step::Fabricate { state: st.clone() },
+        Step::Start { session: ctx.session(1, vec![], vec![Op::Open { slot: 0, mode: Mode::Disk, plan: Plan::default() }, own(0)]) },
+        Step::Start { session: ctx.session(1, vec![], vec![Op::Open { slot: 0, mode: Mode::Disk, plan: Plan::default() }, own(0)]) },
+    ];
+    History { property: "C16".into(), seed, label: format!("started from {tag}, then reopened"), steps }
+}
+
 /// C16 with caller threads: two to four threads ask for the own words of a sample of facts on one
 /// handle that nobody has used yet (whatever the handle sets up on first use happens while the other
 /// callers are already asking).
@@ -927,6 +940,11 @@ pub fn confusables(base: &str, rng: &mut Rng) -> Vec<String> {
         out.push(a.clone());
         out.push(b.clone());
         out.push(format!("{base} {}", words[0]));
+        // spellings the search engine's own query parser rejects (a dangling operator): an
+        // evaluation error like any other, which may not change what later lookups return
+        for t in [format!("{a} OR"), format!("NOT {b}"), format!("{a} NOT"), format!("AND {b}"), format!("{a} AND")] {
+            out.push(t);
+        }
     }
     out.sort();
     out.dedup();
@@ -998,6 +1016,24 @@ pub fn c18_confusable(ctx: &Ctx, pool: &PhrasePool, rng: &mut Rng, seed: u64) ->
             }
         };
         own.extend(confusables(&base, rng));
+    }
+    // every other script works on a handful of spellings only, among them always one operator word in
+    // both cases (a NOT b / a not b), so that spellings which collide under a normalisation meet often
+    if rng.chance(1, 2) && own.len() > 6 {
+        let mut small: Vec<String> = Vec::new();
+        let op = *rng.pick(&[" NOT ", " OR ", " AND "]);
+        if let Some(up) = own.iter().find(|t| t.contains(op)).cloned() {
+            let low = up.replace(op, &op.to_lowercase());
+            small.push(up);
+            small.push(low);
+        }
+        while small.len() < 5 {
+            let t = rng.pick(&own).clone();
+            if !small.contains(&t) {
+                small.push(t);
+            }
+        }
+        own = small;
     }
     let local = PhrasePool { own: own.clone(), ambiguous: own, missing: pool.missing.clone() };
     let mut h = c18_random(ctx, &local, rng, seed);
